@@ -88,7 +88,7 @@ class Router:
                 'selector': ':in-range / :out-of-range', 'count': 0, 'cfgs': [self.label], 'example': str(self.c08[0]),
                 'class': 'C08: any type-less <input> in the document makes the range pseudo-classes raise TypeError; '
                          'the range law is vacuous for these documents'})
-            d['count'] += len(self.c08)
+            d['count'] += len({n[2] for n in self.c08})      # documents (events), not select calls
         # which selectors disagree on which document (B1 reports)
         bad = {}
         for key, what, case in self.reports:
